@@ -190,6 +190,47 @@ pub fn gen_len(t: &mut Tape, o: &mut PayOpts) -> usize {
     }
 }
 
+/// give one string / binary / raw leaf of the forest a payload of `n` bytes (returns false if there is no such leaf)
+pub fn enlarge_one_leaf(t: &mut Tape, forest: &mut [Node], n: usize) -> bool {
+    fn count(f: &[Node]) -> usize {
+        f.iter().map(|x| match &x.kind {
+            NodeKind::Leaf(Payload::S(_)) | NodeKind::Leaf(Payload::B(_)) | NodeKind::Leaf(Payload::Raw(_)) => 1,
+            NodeKind::Master(ch) => count(ch),
+            _ => 0,
+        }).sum()
+    }
+    fn set(f: &mut [Node], k: &mut usize, t: &mut Tape, n: usize) -> bool {
+        for x in f.iter_mut() {
+            match &mut x.kind {
+                NodeKind::Leaf(p @ Payload::S(_)) | NodeKind::Leaf(p @ Payload::B(_)) | NodeKind::Leaf(p @ Payload::Raw(_)) => {
+                    if *k == 0 {
+                        *p = match p {
+                            Payload::S(_) => Payload::S(gen_string(t, n)),
+                            Payload::B(_) => Payload::B(t.filler(n)),
+                            _ => Payload::Raw(t.filler(n)),
+                        };
+                        return true;
+                    }
+                    *k -= 1;
+                }
+                NodeKind::Master(ch) => {
+                    if set(ch, k, t, n) {
+                        return true;
+                    }
+                }
+                _ => {}
+            }
+        }
+        false
+    }
+    let c = count(forest);
+    if c == 0 {
+        return false;
+    }
+    let mut k = t.below(c);
+    set(forest, &mut k, t, n)
+}
+
 pub fn gen_u64(t: &mut Tape) -> u64 {
     match t.weighted(&[3, 5, 4]) {
         0 => t.below(300) as u64,
